@@ -122,6 +122,44 @@ def cases(draw, strands="mixed"):
     return {"t": gen.texel_str(t), "input": inp, "map": m, "prefix": "SUPER_"}
 
 
+@st.composite
+def unit_texel_cases(draw):
+    """texel sizes of 1-2 bp: error length 2-3 bp, many 2-texel pieces, contig ends within a few bases of every cut"""
+    t = draw(st.sampled_from([1.0, 1.0, 1.5, 2.0]))
+    inp = draw(gen.input_assembly(t, max_scaffolds=3, max_contigs=8, scale=12))
+    pieces = []
+    for name, rows in inp:
+        pieces.extend(draw(gen.scaffold_pieces(name, rows, t, cut=True, max_cuts=10)))
+    m = draw(gen.edit_script(pieces))
+    return {"t": gen.texel_str(t), "input": inp, "map": m, "prefix": "SUPER_"}
+
+
+def many_pieces_cases(tier, shard, nshards):
+    """one contig cut into some 300 pieces (more pieces than CPython's small-int cache), left in place; both strands"""
+    import math
+
+    k = 0
+    for t in (2.0, 2.5, 7.3):
+        for strand in (1, -1):
+            for tail in (0, 1, 3):
+                k += 1
+                if k % nshards != shard:
+                    continue
+                n_pieces = 300
+                L = math.floor(2 * n_pieces * t) + tail
+                inp = [["scaffold_1", [["F", "a", 11, 40, 1], ["G", 200, "scaffold"], ["F", "big", 1, L, strand]]]]
+                off = 30 + 200
+                n_tex = math.floor((off + L) / t)
+                ks = list(range(0, n_tex - 1, 2)) + [n_tex]
+                rows = []
+                for k1, k2 in zip(ks, ks[1:]):
+                    s_, e_ = gen.piece_coords(k1, k2, t)
+                    if rows:
+                        rows.append(list(gen.PRETEXT_GAP))
+                    rows.append(["F", "scaffold_1", s_, e_, 1, ["Painted"]])
+                yield {"t": gen.texel_str(t), "input": inp, "map": [["Scaffold_1", rows]], "prefix": "SUPER_"}
+
+
 def kp_reverse_contig_cut(sub, case, msg):
     """F7: a piece boundary falls strictly inside a reverse-strand input contig."""
     if "raised ValueError" not in msg or "does not" not in msg and "Sum of fragment" not in msg:
@@ -130,6 +168,10 @@ def kp_reverse_contig_cut(sub, case, msg):
 
 
 SUBS = [
+    Sub("unit_texel", kind="hyp", strategy=unit_texel_cases, body=body,
+        budget={"quick": 12000, "thorough": 300000}, desc="texel sizes 1 / 1.5 / 2 bp, up to 10 cuts per scaffold: pieces exactly as long as the error length"),
+    Sub("many_pieces", kind="enum", cases=many_pieces_cases, body=body,
+        budget={"quick": 18, "thorough": 18}, desc="a contig cut into ~300 two-texel pieces left in place (forward and reverse, three tail lengths, three texel sizes)"),
     Sub("model", kind="hyp", strategy=cases, body=body,
         budget={"quick": 20000, "thorough": 600000},
         desc="clean PretextView-model maps over mixed-strand inputs; core-run / order / deep-cut validity predicate"),
